@@ -85,6 +85,46 @@ theorem validate_channel (T : ScopeTable) (d : Depth) (S : Schema) (D : Frame) :
         · simp only [hn, Bool.false_eq_true, ↓reduceIte]; exact Or.inl ⟨_, rfl⟩
       · simp only [hd, Bool.false_eq_true, ↓reduceIte]; exact Or.inr ⟨_, hne, rfl⟩
 
+/-- **C06 (c)** corollary: no input makes lazy validation end outside the documented channel -/
+theorem validate_never_crashes (T : ScopeTable) (d : Depth) (S : Schema) (D : Frame) :
+    validateLazy T d S D ≠ .crash := by
+  rcases validate_channel T d S D with ⟨D', h⟩ | ⟨es, _, h⟩ <;> rw [h] <;> simp
+
+/-- **C06 (c)** nothing is swallowed: when errors are raised they are *exactly* the collected ones
+(parser errors, strict / ordered errors, check errors — in that order) -/
+theorem raised_errors_are_the_collected_ones (T : ScopeTable) (d : Depth) (S : Schema) (D : Frame)
+    (es : List Err) (h : validateLazy T d S D = .errors es) :
+    ∃ P pe, parseFrame S D = .ok P pe ∧ es = pe ++ strictOrderedErrors S D ++ coreCheckErrors T d S P := by
+  unfold validateLazy at h
+  cases hp : parseFrame S D with
+  | crash => simp [hp] at h
+  | ok P pe =>
+    refine ⟨P, pe, rfl, ?_⟩
+    simp only [hp] at h
+    split at h
+    · cases h
+    · split at h
+      · split at h
+        · cases h; rfl
+        · cases h
+      · cases h; rfl
+
+/-- **C06 (c)** a failure is silent only when the caller asked for it: without `drop_invalid_rows`,
+validation returns only if *no* error was collected, and then it returns the parsed frame -/
+theorem returns_only_without_errors (T : ScopeTable) (d : Depth) (S : Schema) (D D' : Frame)
+    (hd : S.dropInvalid = false) (h : validateLazy T d S D = .ok D') :
+    ∃ pe, parseFrame S D = .ok D' pe ∧ pe ++ strictOrderedErrors S D ++ coreCheckErrors T d S D' = [] := by
+  unfold validateLazy at h
+  cases hp : parseFrame S D with
+  | crash => simp [hp] at h
+  | ok P pe =>
+    simp only [hp, hd, Bool.false_eq_true, ↓reduceIte] at h
+    split at h
+    · rename_i he
+      cases h
+      exact ⟨pe, rfl, by simpa using he⟩
+    · cases h
+
 /-! ### state is restored whichever callback raises (skeletons regenerated from the source) -/
 
 /-- **C06 (d)** an exception at any point of component validation leaves the components' attributes
